@@ -1,11 +1,11 @@
 package state
 
 import (
-	"io/fs"
 	"context"
 	"errors"
 	"fmt"
 	"io"
+	"io/fs"
 	"time"
 
 	"github.com/ProtonMail/gluon/db"
@@ -27,7 +27,7 @@ type verifConn struct {
 	calls       []string
 	nextID      int
 	literals    map[imap.MessageID][]byte // what GetMessageLiteral can serve
-	sizeErr     error // when set, CreateMessage failures use this error (e.g. connector.ErrMessageSizeExceedsLimits)
+	sizeErr     error                     // when set, CreateMessage failures use this error (e.g. connector.ErrMessageSizeExceedsLimits)
 }
 
 func (c *verifConn) fail(op string) bool {
